@@ -1805,6 +1805,13 @@ def _stateprep_workflow(
         SetTargetPass(state),
         synthesis,
         scan if optimization_level >= 2 else NOOPPass(),
+        build_single_qudit_retarget_workflow(
+            optimization_level,
+            synthesis_epsilon,
+            max_synthesis_size,
+            error_threshold,
+            error_sim_size,
+        ),
     ]
 
     return Workflow(workflow, name='Off-the-Shelf State Synthesis')
@@ -1903,6 +1910,13 @@ def _statemap_workflow(
         SetTargetPass(state),
         synthesis,
         scan if optimization_level >= 2 else NOOPPass(),
+        build_single_qudit_retarget_workflow(
+            optimization_level,
+            synthesis_epsilon,
+            max_synthesis_size,
+            error_threshold,
+            error_sim_size,
+        ),
     ]
 
     return Workflow(workflow, name='Off-the-Shelf State System Synthesis')
